@@ -572,6 +572,87 @@ func ruleERRPROP(c *Ctx, r *Report) {
 		}
 	}
 	r.floor(rule, "error-returning calls", n, 15)
+	// a tested error is handed on: where one of these functions returns straight from the branch on which an
+	// error was found non-nil, its own error result is not the nil constant (the sub-expression failed, the
+	// caller must hear of it — otherwise the text assembled so far goes out as a result)
+	swallowed := 0
+	for _, f := range fns {
+		nres := f.Signature.Results().Len()
+		if nres == 0 || !isErrorType(f.Signature.Results().At(nres-1).Type()) {
+			continue
+		}
+		for _, b := range f.Blocks {
+			iff, ok := b.Instrs[len(b.Instrs)-1].(*ssa.If)
+			if !ok || len(b.Succs) != 2 {
+				continue
+			}
+			for si, pol := range []bool{true, false} {
+				isErrBranch := false
+				errKey := ""
+				for _, a := range c.atoms(iff.Cond, pol, nil) {
+					if a.Kind == "nil" && !a.Pos && strings.HasSuffix(a.Subj, fmt.Sprintf("#%d", 1)) || a.Kind == "nil" && !a.Pos && isErrorKey(a.Subj) {
+						isErrBranch = true
+						errKey = a.Subj
+					}
+				}
+				if !isErrBranch {
+					continue
+				}
+				// only the errors of rendering a sub-expression (the renderers, the serialisers, a registered
+				// render function, Parse): a failed number reading in the range function means "not a number",
+				// not a failure
+				subRender := false
+				if bo, ok := iff.Cond.(*ssa.BinOp); ok {
+					for _, opnd := range []ssa.Value{bo.X, bo.Y} {
+						ex, ok := c.resolve(opnd, nil).(*ssa.Extract)
+						if !ok {
+							continue
+						}
+						call, ok := ex.Tuple.(*ssa.Call)
+						if !ok {
+							continue
+						}
+						g := call.Call.StaticCallee()
+						switch {
+						case g == nil && !call.Call.IsInvoke():
+							subRender = true // a render function taken from the table
+						case g != nil && (g == dr.Render || g == dr.RenderParam || g == dr.Ser || g == dr.SerParam || g == dr.RangeParam || g == dr.LikeParam):
+							subRender = true
+						case g != nil && fnPkgPath(g) == pkgRoot && g.Name() == "Parse":
+							subRender = true
+						case g != nil && g.Signature.Recv() != nil && fnPkgPath(g) == pkgDriver && (c.calls(g, dr.Ser) || c.calls(g, dr.SerParam)):
+							subRender = true
+						}
+					}
+				}
+				if !subRender {
+					continue
+				}
+				succ := b.Succs[si]
+				if len(succ.Preds) != 1 {
+					continue
+				}
+				ret, ok := succ.Instrs[len(succ.Instrs)-1].(*ssa.Return)
+				if !ok || len(ret.Results) != nres {
+					continue
+				}
+				// only straight-line blocks (the branch body itself)
+				if k, isC := c.resolve(ret.Results[nres-1], nil).(*ssa.Const); isC && k.IsNil() {
+					swallowed++
+					r.bad(rule, fmt.Sprintf("%s|swallowed|%s", fnName(f), errKey), c.instrPos(ret), fmt.Sprintf("%s finds the error %s non-nil and returns with a nil error: the failure of a sub-expression is swallowed and whatever text was assembled (possibly nothing) is delivered as the rendering", fnName(f), errKey))
+				}
+			}
+		}
+	}
+	if swallowed == 0 {
+		r.ok(rule, "tested-errors-handed-on", "-", "no function in scope returns a nil error from the branch on which it found an error")
+	}
+}
+
+// isErrorKey: the key names an error value (the last result of a call).
+func isErrorKey(k string) bool {
+	i := strings.LastIndex(k, "#")
+	return i > 0 && strings.HasSuffix(k[:i], ")")
 }
 
 func (c *Ctx) argKeys(call *ssa.Call) string {
